@@ -176,7 +176,10 @@ def history_case(draw, strict):
             k = 1 if kind == 'one' else draw(st.integers(2, 3))
             steps.append({'reqs': [draw(_request(truth['n'], strict, anchors)) for _ in range(k)]})
     return {'edges': edges, 'topo': topo, 'truth': truth, 'steps': steps, 'strict': strict,
-            'spacing_si': draw(st.sampled_from([50e9, 50e9, 75e9]))}
+            'spacing_si': draw(st.sampled_from([50e9, 50e9, 75e9])),
+            # guard band of the spectrum maps in 6.25 GHz slot indices: 4 = the 25 GHz default of build_oms_list; other values
+            # are set through OMS.update_spectrum(guardband=...) on every OMS before the history starts
+            'guard_slots': draw(st.sampled_from([4, 4, 4, 8, 2]))}
 
 
 # ------------------------------------------------------------------------------------------------ helpers
@@ -286,7 +289,7 @@ def _match(entries, result, require_fixed_m):
 # ------------------------------------------------------------------------------------------------ the check
 
 class _Model:
-    def __init__(self, oms_list, ctx):
+    def __init__(self, oms_list, ctx, guard_slots=GUARD_SLOTS):
         from gnpy.topology.spectrum_assignment import BitmapValue
         self.BV = BitmapValue
         self.key_of = {}         # oms index -> (link, dir)
@@ -311,7 +314,7 @@ class _Model:
         if len(ext) != 1:
             ctx.violation('setup:maps-of-different-extent', str(sorted(ext)))
         self.n_min, self.n_max = sorted(ext)[0]
-        self.g_lo, self.g_hi = self.n_min + GUARD_SLOTS, self.n_max - GUARD_SLOTS
+        self.g_lo, self.g_hi = self.n_min + guard_slots, self.n_max - guard_slots
 
     def usable(self, i):
         return {n for n, v in self.initial[i].items() if v is self.BV.FREE}
@@ -456,7 +459,15 @@ def run(case, ctx):
             return
         nodes = {n.uid: n for n in network.nodes()}
         truth = case['truth']
-        model = _Model(oms_list, ctx)
+        guard_slots = case.get('guard_slots', GUARD_SLOTS)
+        if guard_slots != GUARD_SLOTS:
+            from gnpy.topology.spectrum_assignment import nvalue_to_frequency
+            for o in oms_list:
+                bm = o.spectrum_bitmap
+                o.update_spectrum(nvalue_to_frequency(bm.n_min), nvalue_to_frequency(bm.n_max),
+                                  guardband=guard_slots * 6.25e9, existing_spectrum=list(bm.bitmap))
+            ctx.label(f'guard-band:{guard_slots}-slots')
+        model = _Model(oms_list, ctx, guard_slots)
         if ctx.violations:
             return
         usable_sizes = {len(model.usable(i)) for i in range(len(oms_list))}
